@@ -97,6 +97,9 @@ func main() {
 		{"recv-instance-disappears-and-returns", recvworld.Cfg{DownloadLimit: 2, DecompressLimit: 2, Instances: []string{"b", "c"}, Single: []string{"c"}, Faults: true, Vanish: true, Republish: true,
 			Script: []string{"dl:c@st.load=fail", "newest-of-c-cleaned"}, Polls: 3}},
 		{"recv-publish-vanish", recvworld.Cfg{DownloadLimit: 2, DecompressLimit: 1, Instances: []string{"b", "c"}, Publish: true, Vanish: true, Polls: ev.Pick(r, 1, 2)}},
+		// the merge loop is busy: delivered snapshots stay pending in the receiver while a newer, undecodable blob of the
+		// same instance comes and goes (the pending snapshot is downloaded again and replaces itself)
+		{"recv-pending-superseded-by-itself", recvworld.Cfg{DownloadLimit: 2, DecompressLimit: 2, Instances: []string{"b"}, LateConsumer: true, PublishCorrupt: true, Publish: true, Polls: 3}},
 		// a cleaner removes a superseded snapshot while another instance publishes: the listing keeps its length and its last name
 		{"recv-publish-while-older-cleaned", recvworld.Cfg{DownloadLimit: 1, DecompressLimit: 1, Instances: []string{"b", "c"}, Publish: true, CleanOlder: true, Polls: 2}},
 	}
